@@ -1242,7 +1242,7 @@ class LiteralData(Packet):
         fnl = packet[0]
         del packet[0]
 
-        self.filename = packet[:fnl].decode()
+        self.filename = packet[:fnl].decode('latin-1')
         del packet[:fnl]
 
         self.mtime = packet[:4]
